@@ -75,6 +75,31 @@ theorem C06_world_replicated_bytes_once (j : Job) (wf : j.WF) (st0 : RankState) 
       = (((flat us0).filter (fun x => j.rep x.1.path.1)).map (fun x => x.2.length)).sum :=
   world_replicated_bytes_once j wf st0 h0 us0 hus0
 
+/-- **C06, whole job: the partition does not change how much is written.** Two jobs that differ only in the partition
+(`owner`) — e.g. the greedy partition computed from two different load snapshots, or a repartition after an elastic
+restart — write the same total of replicated payload bytes: the partitioner moves work between ranks, it never
+duplicates or drops any. -/
+theorem C06_world_partition_independent_bytes (j j' : Job) (wf : j.WF) (wf' : j'.WF)
+    (hcfg : j'.cfg = j.cfg) (hst : j'.states = j.states) (hrep : j'.rep = j.rep)
+    (st0 : RankState) (h0 : j.states[0]? = some st0)
+    (us0 : List ((PathId × Leaf) × List (WReq UnitId × Bytes))) (hus0 : rankUnits j.cfg st0 = .ok us0) :
+    ((List.range j.states.length).map (repBytesOfRank j)).sum
+      = ((List.range j'.states.length).map (repBytesOfRank j')).sum := by
+  rw [C06_world_replicated_bytes_once j wf st0 h0 us0 hus0,
+    C06_world_replicated_bytes_once j' wf' st0 (by rw [hst]; exact h0) us0 (by rw [hcfg]; exact hus0), hrep]
+
+/-- **C01 / C06, whole job: the partition does not change what is restored.** Whatever two partitions send the
+replicated units to, every rank restores the same (namely the saved) value of every leaf from either snapshot. -/
+theorem C06_world_partition_independent_restore (j j' : Job) (wf : j.WF) (wf' : j'.WF)
+    (hst : j'.states = j.states)
+    (order : List ((Nat × Nat) × ULoc WLoc) → List ((Nat × Nat) × ULoc WLoc)) (horder : ∀ cs, (order cs).Perm cs)
+    (r : Nat) (st : RankState) (hr : j.states[r]? = some st) (p : PathId) (l : Leaf) (hpl : (p, l) ∈ st) :
+    ∃ en en', worldEntry j r p l = .ok en ∧ worldEntry j' r p l = .ok en' ∧
+      worldRestore j order en = .ok l ∧ worldRestore j' order en' = .ok l := by
+  obtain ⟨en, hen, hres, _⟩ := C01_world_roundtrip j wf order horder r st hr p l hpl
+  obtain ⟨en', hen', hres', _⟩ := C01_world_roundtrip j' wf' order horder r st (by rw [hst]; exact hr) p l hpl
+  exact ⟨en, en', hen, hen', hres, hres'⟩
+
 /-! ## Non-vacuity: a concrete two-rank job with a chunked replicated tensor split across the ranks -/
 def exTA : Ts.Serial.Tensor := ⟨"float32", [3, 2], List.range 24⟩
 def exTB : Ts.Serial.Tensor := ⟨"bfloat16", [3], [1, 2, 3, 4, 5, 6]⟩
@@ -122,5 +147,22 @@ theorem exJob_wf : exJob.WF where
 example : ∃ en, worldEntry exJob 1 1 (.tensor exTA) = .ok en ∧ worldRestore exJob id en = .ok (.tensor exTA) := by
   obtain ⟨en, h1, h2, _⟩ := C01_world_roundtrip exJob exJob_wf id (fun _ => List.Perm.refl _) 1 _ rfl 1 (.tensor exTA) (by simp)
   exact ⟨en, h1, h2⟩
+
+/-- the same job with everything replicated sent to rank 0 (another partition) -/
+def exJob0 : Job := { exJob with owner := fun _ => 0 }
+
+theorem exJob0_wf : exJob0.WF :=
+  { chunk := exJob_wf.chunk, slab := exJob_wf.slab, leaves := exJob_wf.leaves, paths := exJob_wf.paths,
+    repAll := exJob_wf.repAll, repSame := exJob_wf.repSame, owner := by intro u; simp [exJob0, exJob] }
+
+/-- non-vacuity of the partition-independence theorems: the split partition and the all-on-rank-0 partition write the
+same number of replicated bytes (here 24 + 6 = 30), checked by evaluation as well -/
+example : ((List.range exJob.states.length).map (repBytesOfRank exJob)).sum
+    = ((List.range exJob0.states.length).map (repBytesOfRank exJob0)).sum := by
+  obtain ⟨us0, hus0⟩ : ∃ us0, rankUnits exJob.cfg [(1, .tensor exTA), (2, .blob [9, 9, 9]), (5, .tensor exTB)] = .ok us0 :=
+    ⟨_, rfl⟩
+  exact C06_world_partition_independent_bytes exJob exJob0 exJob_wf exJob0_wf rfl rfl rfl _ rfl us0 hus0
+example : ((List.range exJob.states.length).map (repBytesOfRank exJob)).sum = 30 := by decide +kernel
+example : ((List.range exJob0.states.length).map (repBytesOfRank exJob0)).sum = 30 := by decide +kernel
 
 end Ts.World
